@@ -274,7 +274,7 @@ Definition nth_obs {A} (i : nat) (l : list (list A)) : list A := nth i l [].
 
 (* what the comparison of strings found: specification agrees, boreal agrees, the fixed-offset
    class explained a difference, an ambiguous fullword regex is present, it explained a difference *)
-(* q_sp: 0, or the class (11) of a per-string finding that explained a difference on this input
+(* q_sp: 0, or the class (11, 19) of a per-string finding that explained a difference on this input
    (such a difference may also change the verdicts of the rules that use the string) *)
 Record sres := { q_spec : bool; q_boreal : bool; q_fix : bool; q_amb : bool; q_amb_used : bool; q_sp : N }.
 Definition mk_sres (sp bo fx am amu : bool) (st : N) : sres :=
@@ -328,6 +328,27 @@ Definition start_position_shape (s : sdecl) (m : bytes) (nlits : N) (y b : list 
                         || existsb (fun bo => (fst yo <? fst bo)
                                               && ((1 <? nlits) || (fst bo <? fst yo + snd yo))) b) y.
 
+(* ---- recorded finding 19 (C07-hex-alt-first-uneven): a hex string that *starts* with an alternation
+   whose branches do not all have the same fixed length, compiled by boreal to several literals.
+   The literals come from the ends of the branches and share one pre / post validator, so the tail of
+   one branch is combined with the start of another: `{ ( ( ~D? FF | 00 92 ?? ) 00 63 | 00 ) ~D? }`
+   on `0E FF 00 63 FB` — libyara (and Spec/Regex.v): (0,5) and (2,2); boreal: (2,3), which is not a
+   member, and (0,5) is missed.  Class (per string): the syntactic shape + more than one literal. *)
+Definition simple_token (t : token) : bool :=
+  match t with TJump _ _ | TAlts _ => false | _ => true end.
+Definition branch_len (ts : list token) : option nat :=
+  if forallb simple_token ts then Some (length ts) else None.
+Definition alt_first_uneven (s : sdecl) : bool :=
+  match s with
+  | SHex (TAlts (b0 :: rest) :: _) =>
+      match branch_len b0 with
+      | None => true
+      | Some n => negb (forallb (fun b => match branch_len b with Some k => Nat.eqb k n | None => false end) rest)
+      end
+  | _ => false
+  end.
+Definition K_ALT_FIRST : N := 19.
+
 (* strings of one rule on one input *)
 Fixpoint strings_check (cond : option expr) (m : bytes) (ss : list sdecl) (nl : list N) (v : nat)
          (ys bs : list (list (N * N))) : sres :=
@@ -352,7 +373,9 @@ Fixpoint strings_check (cond : option expr) (m : bytes) (ss : list sdecl) (nl : 
       else
         let exact := string_agree s m y b in
         let shape := negb exact && start_position_shape s m (nth v nl 0) y b in
-        mk_sres (string_spec_ok s m y) (exact || shape) false false false (if shape then K_START_POS else 0))
+        let altf := negb exact && negb shape && alt_first_uneven s && (1 <? nth v nl 0) in
+        mk_sres (string_spec_ok s m y) (exact || shape || altf) false false false
+                (if altf then K_ALT_FIRST else if shape then K_START_POS else 0))
   end.
 
 (* a rule that is not reported (private): its strings cannot be compared; an ambiguous one makes the
